@@ -22,6 +22,12 @@ from harness import core
 FIXED_TIME = 1700000000.0
 
 
+def isolinux_boot(n=2048, fill=0x5a):
+    """a boot file isohybrid accepts: 0x40 bytes, the isolinux signature fb c0 78 70, filler"""
+    b = bytes(0x40) + b'\xfb\xc0\x78\x70' + bytes([fill]) * max(0, n - 0x44)
+    return b[:max(n, 0x44)]
+
+
 def content(cid, n):
     return bytes(((cid * 37 + i * 11 + (i >> 8) * 3 + 5) % 251) for i in range(n))
 
@@ -40,12 +46,29 @@ def content_cached(cid, n):
 
 @contextlib.contextmanager
 def frozen_time(t=FIXED_TIME):
-    real = time.time
+    """Freeze the environment inputs pycdlib reads while building an image: time.time, random.getrandbits (UDF volume set
+    identifier, isohybrid MBR id) and uuid.uuid4 (GPT GUIDs) — the latter two as deterministic sequences restarted here."""
+    import random as _random
+    import uuid as _uuid
+    real, real_bits, real_uuid = time.time, _random.getrandbits, _uuid.uuid4
+    counter = [0]
+
+    def bits(n):
+        counter[0] += 1
+        return (0x2545F491 * counter[0]) & ((1 << n) - 1)
+
+    def uuid4():
+        counter[0] += 1
+        return _uuid.UUID(int=(0x9E3779B97F4A7C15F39CC0605CEDC834 * counter[0]) & ((1 << 128) - 1), version=4)
     time.time = lambda: t
+    _random.getrandbits = bits
+    _uuid.uuid4 = uuid4
     try:
         yield
     finally:
         time.time = real
+        _random.getrandbits = real_bits
+        _uuid.uuid4 = real_uuid
 
 
 def exc_class(e):
@@ -76,7 +99,7 @@ def apply_op(iso, op):
     o = op['op']
     try:
         if o == 'addfp':
-            data = content_cached(op['cid'], op['n'])
+            data = bytes.fromhex(op['hex']) if 'hex' in op else content_cached(op['cid'], op['n'])
             kw = _kw(op, iso_path='iso', rr_name='rr', joliet_path='joliet', udf_path='udf', file_mode='mode')
             iso.add_fp(io.BytesIO(data), op['n'], **kw)
         elif o == 'adddir':
